@@ -26,32 +26,6 @@ Definition case_cfg (k : c02_case) : cfg :=
   mkCfg (k_cls k) (k_max k)
         (match k_on_miss k with None => None | Some (t, d) => Some (table_fun t d) end).
 
-(* a model observation against an implementation observation: everything equal;
-   the full view only where the harness took one *)
-Definition obs_agree (m i : obs) : bool :=
-  res_eqb outv_eqb (o_out m) (o_out i)
-  && Nat.eqb (o_len m) (o_len i)
-  && N.eqb (o_hit m) (o_hit i) && N.eqb (o_miss m) (o_miss i) && N.eqb (o_soft m) (o_soft i)
-  && list_eqb Nat.eqb (o_calls m) (o_calls i)
-  && match o_items i with
-     | None => true
-     | Some l => option_eqb (list_eqb kv_eqb) (o_items m) (Some l)
-     end.
-
-Fixpoint agree_walk (c : cfg) (h : list cache) (steps : list (hop * obs)) : bool :=
-  match steps with
-  | [] => true
-  | (o, ob) :: rest =>
-      let '(h', mo) := hobserve c h o in
-      obs_agree mo ob && agree_walk c h' rest
-  end.
-
-Definition agree_check (c : cfg) (init : list (K * V)) (steps : list (hop * obs)) : bool :=
-  match init_cache c init with
-  | (m, Ok _) => agree_walk c [m] steps
-  | (_, Raise _) => false
-  end.
-
 Definition c02_verdict (k : c02_case) : verdict :=
   let c := case_cfg k in
   (agree_check c (k_init k) (k_steps k), spec_check c (k_init k) (k_steps k), false).
